@@ -6,6 +6,7 @@ import astropy.units as u
 from astropy.time import Time
 import pulsarbat as pb
 import functools
+import dask
 import dask.array as da
 
 __all__ = [
@@ -49,6 +50,17 @@ def signal_transform(func):
         if isinstance(x.data, da.Array):
             # Bind the function's own keywords, so that names such as ``dtype``
             # or ``name`` are not taken for parameters of ``map_blocks``.
+            if "name" not in dask_kwargs:
+                # Name the output from the exact values of the keywords (dask
+                # would hash a Quantity without its unit, or by its printed form).
+                exact = {
+                    k: (v.unit.to_string(), np.asarray(v.value).tobytes(), v.shape)
+                    if isinstance(v, u.Quantity)
+                    else v
+                    for k, v in kwargs.items()
+                }
+                token = dask.base.tokenize(func, x.data, dask_kwargs, exact)
+                dask_kwargs = dict(dask_kwargs, name=f"{dask.utils.funcname(func)}-{token}")
             z = da.map_blocks(functools.partial(func, **kwargs), x.data, **dask_kwargs)
         else:
             z = func(x.data, **kwargs)
